@@ -1809,19 +1809,33 @@ func patchCode(context *funcContext) { // {{{
 		curop := opGetOpCode(inst)
 		switch curop {
 		case OP_CLOSURE:
+			if reg := opGetArgA(inst); reg > maxreg {
+				maxreg = reg
+			}
 			pc += int(context.Proto.FunctionPrototypes[opGetArgBx(inst)].NumUpvalues)
 			moven = 0
 			continue
 		case OP_SETGLOBAL, OP_SETUPVAL, OP_EQ, OP_LT, OP_LE, OP_TEST,
-			OP_TAILCALL, OP_RETURN, OP_FORPREP, OP_FORLOOP, OP_TFORLOOP,
-			OP_SETLIST, OP_CLOSE:
+			OP_TAILCALL, OP_RETURN, OP_SETLIST, OP_CLOSE:
 			/* nothing to do */
+		case OP_FORPREP, OP_FORLOOP: // R(A+3) is the loop variable
+			if reg := opGetArgA(inst) + 3; reg > maxreg {
+				maxreg = reg
+			}
+		case OP_TFORLOOP: // R(A+3) ... R(A+2+C) receive the results
+			if reg := opGetArgA(inst) + 2 + opGetArgC(inst); reg > maxreg {
+				maxreg = reg
+			}
 		case OP_CALL:
 			if reg := opGetArgA(inst) + opGetArgC(inst) - 2; reg > maxreg {
 				maxreg = reg
 			}
 		case OP_VARARG:
-			if reg := opGetArgA(inst) + opGetArgB(inst) - 1; reg > maxreg {
+			reg := opGetArgA(inst) + opGetArgB(inst) - 1
+			if opGetArgB(inst) == 0 { // all varargs, stored from R(A) on
+				reg = opGetArgA(inst)
+			}
+			if reg > maxreg {
 				maxreg = reg
 			}
 		case OP_SELF:
